@@ -326,7 +326,7 @@ def task(t):
 
 def main():
     run = Run("C11")
-    n = run.size(1400, 90000)
+    n = run.size(6000, 90000)
     per = 20
     tasks = [(run.seed, i, per, "verif" if i % 3 else "release") for i in range(max(2, n // per))]
     evals = nontrivial = 0
